@@ -46,25 +46,99 @@ def build(obj, seen):
 """
 
 
+POSITIVE_C = """
+class Path:
+    def __init__(self):
+        self._open = {}
+    def enter(self, c):
+        self._open[id(c)] = c
+    def leave(self, c):
+        self._open.pop(id(c), None)
+def mapping(obj, path):
+    path.enter(obj)
+    items = {k: build(v, path) for k, v in obj.items()}
+    if not items:
+        return {}
+    path.leave(obj)
+    return items
+"""
+NEGATIVE_C = """
+def build(obj, seen, check):
+    if isinstance(obj, list):
+        if check:
+            seen.add(id(obj))
+        out = [build(x, seen, check) for x in obj]
+        if check:
+            seen.discard(id(obj))
+        return out
+    return obj
+"""
+
+
 def _is_call_stmt(s, attrs, names):
     return isinstance(s, ast.Expr) and isinstance(s.value, ast.Call) and isinstance(s.value.func, ast.Attribute) \
         and s.value.func.attr in attrs and dotted(s.value.func.value) in names
 
 
-def scan(fn, helper_adds=None):
-    """[(verdict, return node, enter stmt)] for every return of fn that follows an 'enter' (set.add) of a tracking set."""
+def _terminates(stmts):
+    """every path through the statements ends in return / raise / continue / break"""
+    if not stmts:
+        return False
+    last = stmts[-1]
+    if isinstance(last, (ast.Return, ast.Raise, ast.Continue, ast.Break)):
+        return True
+    if isinstance(last, ast.If):
+        return bool(last.orelse) and _terminates(last.body) and _terminates(last.orelse)
+    if isinstance(last, ast.Try):
+        return _terminates(last.finalbody) or (_terminates(last.body) and all(_terminates(h.body) for h in last.handlers))
+    if isinstance(last, ast.With):
+        return _terminates(last.body)
+    return False
+
+
+def tracker_methods(tree):
+    """(enter names, leave names) over the classes of a module that keep a container on self and have a method that puts an
+    entry in (`self.X[k] = v`, `self.X.add(k)`) and another that takes one out (`pop`, `discard`, `remove`, `del`): a path
+    tracker object, `path.enter(obj)` ... `path.leave(obj)`."""
+    enter, leave = set(), set()
+    for cls in [n for n in ast.walk(tree) if isinstance(n, ast.ClassDef)]:
+        ins, outs = {}, {}
+        for fn in [x for x in cls.body if isinstance(x, ast.FunctionDef) and x.name != "__init__"]:
+            for x in walk_no_nested(fn):
+                if isinstance(x, ast.Subscript) and isinstance(x.ctx, ast.Store) and dotted(x.value) and dotted(x.value).startswith("self."):
+                    ins.setdefault(dotted(x.value), set()).add(fn.name)
+                if isinstance(x, ast.Subscript) and isinstance(x.ctx, ast.Del) and dotted(x.value) and dotted(x.value).startswith("self."):
+                    outs.setdefault(dotted(x.value), set()).add(fn.name)
+                if isinstance(x, ast.Call) and isinstance(x.func, ast.Attribute) and (dotted(x.func.value) or "").startswith("self."):
+                    if x.func.attr in ("add", "append", "setdefault"):
+                        ins.setdefault(dotted(x.func.value), set()).add(fn.name)
+                    elif x.func.attr in ("pop", "discard", "remove"):
+                        outs.setdefault(dotted(x.func.value), set()).add(fn.name)
+        for attr in set(ins) & set(outs):
+            if not ins[attr] & outs[attr]:
+                enter |= ins[attr]
+                leave |= outs[attr]
+    return enter, leave
+
+
+def scan(fn, helper_adds=None, recursive=None, trackers=(frozenset(), frozenset())):
+    """[(verdict, return node, enter stmt)] for every return of fn that follows an 'enter' (set.add) of a tracking set.
+    recursive: decided by the caller when the recursion runs through other functions (build -> _build_mapping -> build);
+    trackers: (enter, leave) method names of path-tracker classes (tracker_methods)."""
     helper_adds = helper_adds or {}
     name = fn.name
-    recursive = any(isinstance(c, ast.Call) and (dotted(c.func) == name or (isinstance(c.func, ast.Attribute) and c.func.attr == name))
-                    for c in walk_no_nested(fn))
+    if recursive is None:
+        recursive = any(isinstance(c, ast.Call) and (dotted(c.func) == name or (isinstance(c.func, ast.Attribute) and c.func.attr == name))
+                        for c in walk_no_nested(fn))
     if not recursive:
         return []
+    enters, leaves = set(trackers[0]) | {"add"}, ("discard", "remove") + tuple(trackers[1])
     out = []
     for s in walk_no_nested(fn):
         sets = None
         if isinstance(s, ast.Expr) and isinstance(s.value, ast.Call):
             c = s.value
-            if isinstance(c.func, ast.Attribute) and c.func.attr == "add" and isinstance(c.func.value, ast.Name):
+            if isinstance(c.func, ast.Attribute) and c.func.attr in enters and isinstance(c.func.value, ast.Name):
                 sets = {c.func.value.id}
             elif isinstance(c.func, ast.Name) and c.func.id in helper_adds:
                 pos = helper_adds[c.func.id]
@@ -74,29 +148,60 @@ def scan(fn, helper_adds=None):
             continue
         # only sets the function itself treats as a path set: somewhere it does remove an entry (a set that is never shrunk
         # is a 'visited' set by design - one path releasing what another keeps is the contradiction this rule reports)
-        if not any(_is_call_stmt(x, ("discard", "remove"), sets) for x in walk_no_nested(fn)):
+        if not any(_is_call_stmt(x, leaves, sets) for x in walk_no_nested(fn)):
             continue
-        lst, idx = block_of(s)
-        if lst is None:
+        # the blocks the enter sits in, innermost first: returns later in any of them follow the enter
+        levels = []
+        cur = s
+        tests = []                 # the `if` tests the enter stands under (an `if check:` around the enter may also guard the removal)
+        while cur is not None and cur is not fn:
+            if isinstance(cur, ast.stmt):
+                l_, i_ = block_of(cur)
+                if l_ is not None:
+                    levels.append((l_, i_, list(tests)))
+                    if _terminates(l_[i_ + 1:]):
+                        break          # control does not fall out of this block: nothing further out follows the enter
+            par = getattr(cur, "_parent", None)
+            if isinstance(par, ast.If) and cur in par.body:
+                tests.append(ast.dump(par.test))
+            if isinstance(par, (ast.For, ast.While, ast.FunctionDef, ast.AsyncFunctionDef, ast.Lambda)) and par is not fn:
+                break              # an enter inside a loop body: the later statements of the loop's block follow many enters
+            cur = par
+        if not levels:
             continue
-        for later in lst[idx + 1:]:
-            for r in [later] if isinstance(later, ast.Return) else [x for x in walk_no_nested(later) if isinstance(x, ast.Return)]:
-                # a removal on the way from the enter to this return: an earlier sibling in any block between them, or a finally
-                ok = False
-                cur = r
-                while cur is not None and cur is not fn:
-                    l2, i2 = block_of(cur) if isinstance(cur, ast.stmt) else (None, None)
-                    if l2 is not None:
-                        start = idx + 1 if l2 is lst else 0
-                        if any(_is_call_stmt(x, ("discard", "remove"), sets) for x in l2[start:i2]):
+
+        def removes(stmts, guards):
+            for x in stmts:
+                if _is_call_stmt(x, leaves, sets):
+                    return True
+                if isinstance(x, ast.If) and ast.dump(x.test) in guards and not x.orelse and any(_is_call_stmt(y, leaves, sets) for y in x.body):
+                    return True        # `if check: S.add(k)` ... `if check: S.discard(k)`
+            return False
+        for lst, idx, guards in levels:
+            for later in lst[idx + 1:]:
+                for r in [later] if isinstance(later, ast.Return) else [x for x in walk_no_nested(later) if isinstance(x, ast.Return)]:
+                    # a removal on the way from the enter to this return: an earlier sibling in any block between them, or a finally
+                    ok = False
+                    cur = r
+                    while cur is not None and cur is not fn:
+                        l2, i2 = block_of(cur) if isinstance(cur, ast.stmt) else (None, None)
+                        if l2 is not None:
+                            start = idx + 1 if l2 is lst else 0
+                            if removes(l2[start:i2], guards):
+                                ok = True
+                        par = getattr(cur, "_parent", None)
+                        if isinstance(par, ast.Try) and any(_is_call_stmt(x, leaves, sets) for x in par.finalbody):
                             ok = True
-                    par = getattr(cur, "_parent", None)
-                    if isinstance(par, ast.Try) and any(_is_call_stmt(x, ("discard", "remove"), sets) for x in par.finalbody):
-                        ok = True
-                    if l2 is lst:
-                        break
-                    cur = par
-                out.append(("ok" if ok else "bad", r, s))
+                        if l2 is lst:
+                            break
+                        cur = par
+                    # removals between the enter and the end of the inner blocks it sits in count as well
+                    for l3, i3, g3 in levels:
+                        if l3 is lst:
+                            break
+                        if removes(l3[i3 + 1:], g3):
+                            ok = True
+                    out.append(("ok" if ok else "bad", r, s))
     return out
 
 
@@ -178,10 +283,39 @@ def e12(ctx):
             if isinstance(c, ast.Call) and isinstance(c.func, ast.Attribute) and c.func.attr == "add" and isinstance(c.func.value, ast.Name) \
                     and c.func.value.id in ps:
                 helper_adds[f.node.name] = ps.index(c.func.value.id)
+    # recursion through module-level helpers (build_tree -> _build_mapping -> build_tree): name-based call cycles per module
+    calls = {}
+    for fq, f in m.functions.items():
+        calls[fq] = {(dotted(c.func) or "").rsplit(".", 1)[-1] for c in walk_no_nested(f.node) if isinstance(c, ast.Call)}
+    by_mod = {}
+    for fq, f in m.functions.items():
+        by_mod.setdefault(f.file, {}).setdefault(f.node.name, []).append(fq)
+
+    def in_cycle(fq, f):
+        seen_, todo = set(), [fq]
+        while todo:
+            g = todo.pop()
+            for nm in calls.get(g, ()):
+                for h in by_mod.get(f.file, {}).get(nm, ()):
+                    if h == fq:
+                        return True
+                    if h not in seen_:
+                        seen_.add(h)
+                        todo.append(h)
+        return False
+    trackers = {}
+    for mod_, tree in m.mods.items():
+        trackers[m.files[mod_]] = tracker_methods(tree)
+    tt = _set_parents(ast.parse(POSITIVE_C))
+    posc = scan(tt.body[1], recursive=True, trackers=tracker_methods(tt))
+    tn = _set_parents(ast.parse(NEGATIVE_C))
+    negc = scan(tn.body[0])
+    if sorted(v for v, *_ in posc) != ["bad", "ok"] or [v for v, *_ in negc] != ["ok"]:
+        raise Inconclusive(f"E12 self-test (tracker / guarded forms): embedded examples judged {[v for v, *_ in posc]} / {[v for v, *_ in negc]}")
     n = bad = scanned = 0
     for fq, f in sorted(m.functions.items()):
         scanned += 1
-        for verdict, r, enter in scan(f.node, helper_adds):
+        for verdict, r, enter in scan(f.node, helper_adds, recursive=in_cycle(fq, f), trackers=trackers.get(f.file, (frozenset(), frozenset()))):
             n += 1
             if verdict == "bad":
                 bad += 1
